@@ -1,9 +1,7 @@
 (* C29 - proofs about the model of the CAS-backed filesystem view (Model/C29.v). *)
-From Coq Require Import String.
+From Coq Require Import String Lia Arith.
 From PlzV Require Import Base.Harness Base.StrFacts Model.C29.
 From PlzV Require Gen.CasFs.
-From Coq Require Import Lia List Arith.
-Import ListNotations.
 
 (* ---- the tie to the source (regenerated on every run by gotrans CasFs) ---- *)
 Lemma gen_tie :
@@ -23,37 +21,64 @@ Proof.
   - apply IH. lia.
 Qed.
 
+Lemma skipn_add {A} (l : list A) a b : skipn a (skipn b l) = skipn (b + a) l.
+Proof.
+  revert l; induction b as [|b IH]; intros l; cbn [skipn Nat.add]; [reflexivity|].
+  destruct l; [destruct a; reflexivity|]. apply IH.
+Qed.
+
+Lemma readdir_nonpos all off n : (n <= 0)%Z -> readdir all off n = ((skipn off all, false), length all).
+Proof. intros Hn. unfold readdir. destruct (Z.leb_spec n 0); [reflexivity|lia]. Qed.
+
+Lemma readdir_pos_eof all off n : (0 < n)%Z -> length all <= off -> readdir all off n = (([], true), off).
+Proof.
+  intros Hn Hoff. unfold readdir. destruct (Z.leb_spec n 0); [lia|].
+  rewrite (proj2 (skipn_nil_iff all off) Hoff). reflexivity.
+Qed.
+
+Lemma readdir_pos_page all off n : (0 < n)%Z -> off < length all ->
+  readdir all off n = ((firstn (Z.to_nat n) (skipn off all), false),
+                       off + Nat.min (Z.to_nat n) (length all - off)).
+Proof.
+  intros Hn Hoff. unfold readdir. destruct (Z.leb_spec n 0); [lia|].
+  destruct (skipn off all) as [|x rest] eqn:Hs.
+  - apply skipn_nil_iff in Hs. lia.
+  - rewrite <- Hs. rewrite firstn_length, skipn_length. reflexivity.
+Qed.
+
 (* One call: the page is exactly the entries between the old and the new offset. *)
 Lemma readdir_spec all off n :
   off <= length all ->
-  let '((pg, eof), off') := readdir all off n in
+  forall pg eof off', readdir all off n = ((pg, eof), off') ->
   off <= off' <= length all
   /\ pg = firstn (off' - off) (skipn off all)
   /\ ((n <= 0)%Z -> off' = length all /\ eof = false)
   /\ ((0 < n)%Z -> (eof = true <-> off = length all) /\ (eof = true -> pg = [])
                   /\ length pg <= Z.to_nat n /\ (off < length all -> pg <> [])).
 Proof.
-  intros Hoff. unfold readdir.
+  intros Hoff pg eof off' Hr.
   destruct (Z.leb_spec n 0) as [Hn|Hn].
-  - repeat split; try lia.
+  - rewrite readdir_nonpos in Hr by exact Hn. inversion Hr; subst.
+    split; [lia|]. split.
     + rewrite firstn_all2; [reflexivity|]. rewrite skipn_length. lia.
-  - destruct (skipn off all) as [|x rest] eqn:Hs.
-    + apply skipn_nil_iff in Hs. assert (off = length all) by lia. subst off.
-      repeat split; try lia; try reflexivity.
-      * rewrite Nat.sub_diag. reflexivity.
-      * intros _. cbn. lia.
-    + assert (Hlt : off < length all).
-      { destruct (Nat.lt_ge_cases off (length all)) as [H|H]; [exact H|].
-        apply skipn_nil_iff in H. congruence. }
-      assert (Hlen : length (x :: rest) = length all - off) by (rewrite <- Hs; apply skipn_length).
-      assert (Hpg : length (firstn (Z.to_nat n) (x :: rest)) = Nat.min (Z.to_nat n) (length all - off))
-        by (rewrite firstn_length; lia).
-      repeat split; try lia.
-      * f_equal. lia.
-      * discriminate.
-      * intros; lia.
-      * discriminate.
-      * intros _ Hnil. rewrite Hnil in Hpg. cbn in Hpg. lia.
+    + split; [intros _; split; reflexivity | intros; lia].
+  - destruct (Nat.eq_dec off (length all)) as [E|E].
+    + rewrite readdir_pos_eof in Hr by lia. inversion Hr; subst off' pg eof.
+      split; [lia|]. split; [rewrite Nat.sub_diag; reflexivity|].
+      split; [intros; lia|]. intros _. split; [tauto|]. split; [reflexivity|].
+      split; [cbn; lia | intros; lia].
+    + assert (Hlt : off < length all) by lia.
+      rewrite readdir_pos_page in Hr by assumption. inversion Hr; subst off' pg eof.
+      split; [lia|]. split.
+      * replace (off + Nat.min (Z.to_nat n) (length all - off) - off) with (Nat.min (Z.to_nat n) (length all - off)) by lia.
+        rewrite <- (skipn_length off all). remember (skipn off all) as l. remember (Z.to_nat n) as k. clear.
+        revert l; induction k as [|k IH]; intros [|x l]; cbn [firstn length Nat.min]; try reflexivity.
+        f_equal. apply IH.
+      * split; [intros; lia|]. intros _. split; [split; [discriminate|intros; lia]|].
+        split; [discriminate|]. split.
+        -- rewrite firstn_length. lia.
+        -- intros _ Hnil. apply (f_equal (@length _)) in Hnil. rewrite firstn_length, skipn_length in Hnil.
+           cbn in Hnil. lia.
 Qed.
 
 Lemma readdir_eof_stays all n : (0 < n)%Z -> readdir all (length all) n = (([], true), length all).
@@ -77,15 +102,14 @@ Lemma readdir_seq_prefix all ns : forall off, off <= length all ->
 Proof.
   induction ns as [|n ns IH]; intros off Hoff; cbn [readdir_seq readdir_off].
   - split; [lia|]. rewrite Nat.sub_diag. reflexivity.
-  - pose proof (readdir_spec all off n Hoff) as Hs.
-    destruct (readdir all off n) as [[pg eof] off'] eqn:Hr. cbn [snd].
-    destruct Hs as ((Hlo & Hhi) & Hpg & _).
+  - destruct (readdir all off n) as [[pg eof] off'] eqn:Hr. cbn [snd].
+    destruct (readdir_spec all off n Hoff _ _ _ Hr) as ((Hlo & Hhi) & Hpg & _).
     destruct (IH off' Hhi) as ((Hlo' & Hhi') & Hcat).
     split; [lia|]. cbn [map fst concat]. rewrite Hcat, Hpg.
     set (o2 := readdir_off all off' ns) in *.
     replace (o2 - off) with ((off' - off) + (o2 - off')) by lia.
     replace (skipn off' all) with (skipn (off' - off) (skipn off all)).
-    2:{ rewrite skipn_skipn. f_equal. lia. }
+    2:{ rewrite skipn_add. f_equal. lia. }
     remember (skipn off all) as l. clear.
     revert l; induction (off' - off) as [|k IHk]; intros l; cbn [firstn skipn Nat.add]; [reflexivity|].
     destruct l; cbn [firstn skipn app]; [rewrite firstn_nil; reflexivity|]. f_equal. apply IHk.
@@ -104,9 +128,8 @@ Lemma drain_all all n : (0 < n)%Z -> forall fuel off, off <= length all -> lengt
   drain all off n fuel = (skipn off all, true).
 Proof.
   intros Hn. induction fuel as [|f IH]; intros off Hoff Hf; [lia|].
-  cbn [drain]. pose proof (readdir_spec all off n Hoff) as Hs.
-  destruct (readdir all off n) as [[pg eof] off'] eqn:Hr.
-  destruct Hs as ((Hlo & Hhi) & Hpg & _ & Hpos). destruct (Hpos Hn) as (Heof & Hnil & Hlen & Hne).
+  cbn [drain]. destruct (readdir all off n) as [[pg eof] off'] eqn:Hr.
+  destruct (readdir_spec all off n Hoff _ _ _ Hr) as ((Hlo & Hhi) & Hpg & _ & Hpos). destruct (Hpos Hn) as (Heof & Hnil & Hlen & Hne).
   destruct eof.
   - assert (off = length all) by (apply Heof; reflexivity). subst off.
     rewrite (proj2 (skipn_nil_iff all (length all))); [reflexivity|lia].
@@ -117,6 +140,402 @@ Proof.
       cbn in Hpg. exfalso. apply (Hne H). exact Hpg. }
     rewrite IH by lia. rewrite Hpg. f_equal.
     replace (skipn off' all) with (skipn (off' - off) (skipn off all)).
-    2:{ rewrite skipn_skipn. f_equal. lia. }
+    2:{ rewrite skipn_add. f_equal. lia. }
     apply firstn_skipn.
 Qed.
+
+(* ============================================================================================
+   B. path/filepath on well-formed relative paths *)
+
+Definition noslash (x : str) : Prop := ~ In slash x.
+Definition valid_name (x : str) : Prop := x <> [] /\ noslash x /\ x <> dot /\ x <> dotdot.
+
+Lemma split_nonnil p : split p <> [].
+Proof.
+  induction p as [|c r IH]; cbn [split]; [discriminate|].
+  destruct (N.eqb c slash); [discriminate|]. destruct (split r); discriminate.
+Qed.
+
+Lemma split_app a b : split (a ++ slash :: b) = split a ++ split b.
+Proof.
+  induction a as [|c a IH]; cbn [app split].
+  - rewrite N.eqb_refl. reflexivity.
+  - destruct (N.eqb c slash); [rewrite IH; reflexivity|].
+    rewrite IH. pose proof (split_nonnil a) as Hn. destruct (split a); [congruence|]. reflexivity.
+Qed.
+
+Lemma split_noslash x : noslash x -> split x = [x].
+Proof.
+  unfold noslash. induction x as [|c x IH]; intros H; cbn [split]; [reflexivity|].
+  destruct (N.eqb_spec c slash) as [E|E]; [exfalso; apply H; left; auto|].
+  rewrite IH; [reflexivity|]. intros Hin. apply H. right. exact Hin.
+Qed.
+
+Lemma joinp_cons x segs : segs <> [] -> joinp (x :: segs) = x ++ slash :: joinp segs.
+Proof. destruct segs; [congruence|reflexivity]. Qed.
+
+Lemma joinp_snoc ds x : ds <> [] -> joinp (ds ++ [x]) = joinp ds ++ slash :: x.
+Proof.
+  induction ds as [|d ds IH]; [congruence|]. intros _.
+  destruct ds as [|d' ds]; [reflexivity|].
+  change ((d :: d' :: ds) ++ [x]) with (d :: ((d' :: ds) ++ [x])).
+  rewrite joinp_cons by (intro HH; discriminate HH). rewrite IH by discriminate.
+  rewrite (joinp_cons d (d' :: ds)) by discriminate. rewrite <- app_assoc. reflexivity.
+Qed.
+
+Lemma split_joinp segs : Forall noslash segs -> segs <> [] -> split (joinp segs) = segs.
+Proof.
+  induction segs as [|x segs IH]; [congruence|]. intros Hall _.
+  inversion Hall as [|? ? Hx Hr]; subst.
+  destruct segs as [|y segs]; [apply split_noslash; exact Hx|].
+  rewrite joinp_cons by discriminate. rewrite split_app, split_noslash by exact Hx.
+  rewrite IH by (auto; discriminate). reflexivity.
+Qed.
+
+Lemma valid_not_skipped x : valid_name x -> str_eqb x [] || str_eqb x dot = false /\ str_eqb x dotdot = false.
+Proof.
+  intros (H1 & _ & H2 & H3). split.
+  - apply Bool.orb_false_iff. split; apply str_eqb_neq; assumption.
+  - apply str_eqb_neq; assumption.
+Qed.
+
+Lemma norm_valid rooted segs : Forall valid_name segs -> forall dd st,
+  norm rooted dd st segs = (dd, rev segs ++ st).
+Proof.
+  induction segs as [|x segs IH]; intros Hall dd st; [reflexivity|].
+  inversion Hall as [|? ? Hx Hr]; subst. cbn [norm].
+  destruct (valid_not_skipped x Hx) as (E1 & E2). rewrite E1, E2.
+  rewrite IH by exact Hr. cbn [rev]. rewrite <- app_assoc. reflexivity.
+Qed.
+
+Lemma norm_segs_valid rooted segs : Forall valid_name segs -> norm_segs rooted segs = segs.
+Proof.
+  intros H. unfold norm_segs. rewrite norm_valid by exact H. cbn [repeat app].
+  rewrite app_nil_r. apply rev_involutive.
+Qed.
+
+Lemma norm_skip_dot rooted dd st segs : norm rooted dd st (dot :: segs) = norm rooted dd st segs.
+Proof. reflexivity. Qed.
+
+Lemma norm_app_nil rooted segs : forall dd st, norm rooted dd st (segs ++ [[]]) = norm rooted dd st segs.
+Proof.
+  induction segs as [|x segs IH]; intros dd st; [reflexivity|].
+  cbn [app norm]. destruct (str_eqb x [] || str_eqb x dot); [apply IH|].
+  destruct (str_eqb x dotdot); [destruct st; apply IH|apply IH].
+Qed.
+
+Definition unsplit (segs : list str) : str := match segs with [] => dot | _ => joinp segs end.
+
+Lemma valid_names_noslash segs : Forall valid_name segs -> Forall noslash segs.
+Proof. intros H. eapply Forall_impl; [|exact H]. intros x (_ & Hx & _). exact Hx. Qed.
+
+Lemma joinp_head_not_slash segs : Forall valid_name segs -> segs <> [] ->
+  exists c r, joinp segs = c :: r /\ N.eqb c slash = false.
+Proof.
+  intros Hall Hne. destruct segs as [|x segs]; [congruence|].
+  inversion Hall as [|? ? (Hx0 & Hx1 & _) _]; subst.
+  destruct x as [|c x]; [congruence|].
+  exists c. destruct segs.
+  - exists x. split; [reflexivity|]. apply N.eqb_neq. intros E. apply Hx1. left. auto.
+  - eexists. split; [reflexivity|]. apply N.eqb_neq. intros E. apply Hx1. left. auto.
+Qed.
+
+(* a clean relative path is left alone by Clean ... *)
+Lemma clean_joinp segs : Forall valid_name segs -> segs <> [] -> clean (joinp segs) = joinp segs.
+Proof.
+  intros Hall Hne. destruct (joinp_head_not_slash segs Hall Hne) as (c & r & E & Hc).
+  unfold clean. rewrite E, Hc, <- E.
+  rewrite split_joinp by (auto using valid_names_noslash).
+  rewrite norm_segs_valid by exact Hall. destruct segs; [congruence|reflexivity].
+Qed.
+
+(* ... and by Join with the working directory "." *)
+Lemma go_join_dot segs : Forall valid_name segs -> segs <> [] -> go_join dot (joinp segs) = joinp segs.
+Proof.
+  intros Hall Hne. unfold go_join, dot. cbn [app]. unfold clean.
+  change (N.eqb 46 slash) with false. cbv iota.
+  change (46%N :: slash :: joinp segs) with ([46%N] ++ slash :: joinp segs).
+  rewrite split_app. rewrite split_joinp by (auto using valid_names_noslash).
+  change (split [46%N]) with [dot]. cbn [app]. unfold norm_segs. rewrite norm_skip_dot.
+  fold (norm_segs false segs). rewrite norm_segs_valid by exact Hall.
+  destruct segs; [congruence|reflexivity].
+Qed.
+
+Lemma go_join_dot_dot : go_join dot dot = dot.
+Proof. reflexivity. Qed.
+
+Lemma upto_last_slash_noslash x : noslash x -> upto_last_slash x = [].
+Proof.
+  unfold noslash. induction x as [|c x IH]; intros H; cbn [upto_last_slash]; [reflexivity|].
+  rewrite IH by (intros Hin; apply H; right; exact Hin).
+  destruct (N.eqb_spec c slash) as [E|E]; [exfalso; apply H; left; auto|reflexivity].
+Qed.
+
+Lemma upto_last_slash_app a x : noslash x -> upto_last_slash (a ++ slash :: x) = a ++ [slash].
+Proof.
+  intros Hx. induction a as [|c a IH]; cbn [app upto_last_slash].
+  - rewrite N.eqb_refl, upto_last_slash_noslash by exact Hx. reflexivity.
+  - rewrite IH. destruct (N.eqb c slash); [reflexivity|]. destruct a; reflexivity.
+Qed.
+
+(* Dir of a node path = the path of the directory holding the node *)
+Lemma go_dir_snoc ds x : Forall valid_name ds -> valid_name x -> go_dir (joinp (ds ++ [x])) = unsplit ds.
+Proof.
+  intros Hds (_ & Hx & _). unfold go_dir. destruct ds as [|d ds].
+  - cbn [app joinp]. rewrite upto_last_slash_noslash by exact Hx. reflexivity.
+  - rewrite joinp_snoc by discriminate. rewrite upto_last_slash_app by exact Hx.
+    destruct (joinp_head_not_slash (d :: ds) Hds ltac:(discriminate)) as (c & r & E & Hc).
+    unfold clean. rewrite E. cbn [app]. rewrite Hc. rewrite app_comm_cons, <- E.
+    change (joinp (d :: ds) ++ [slash]) with (joinp (d :: ds) ++ slash :: []).
+    rewrite split_app, split_joinp by (auto using valid_names_noslash; discriminate).
+    change (split []) with [@nil N]. unfold norm_segs. rewrite norm_app_nil.
+    fold (norm_segs false (d :: ds)). rewrite norm_segs_valid by exact Hds. reflexivity.
+Qed.
+
+(* Join(Dir(path of a link), target): the directory's elements followed by the target's elements,
+   normalised lexically - "resolved relative to its directory" *)
+Definition rel_target (ds : list str) (target : str) : list str := norm_segs false (ds ++ split target).
+
+Lemma go_join_target ds target : Forall valid_name ds ->
+  go_join (unsplit ds) target = unsplit (rel_target ds target).
+Proof.
+  intros Hds. unfold rel_target. destruct ds as [|d ds].
+  - cbn [unsplit app]. unfold go_join, dot. cbn [app]. unfold clean.
+    change (N.eqb 46 slash) with false. cbv iota.
+    change (46%N :: slash :: target) with ([46%N] ++ slash :: target).
+    rewrite split_app. change (split [46%N]) with [dot]. cbn [app]. unfold norm_segs at 1 2.
+    rewrite norm_skip_dot. reflexivity.
+  - cbn [unsplit].
+    destruct (joinp_head_not_slash (d :: ds) Hds ltac:(discriminate)) as (c & r & E & Hc).
+    unfold go_join. rewrite E. cbv iota beta. unfold clean. cbn [app]. rewrite Hc.
+    change (c :: r ++ slash :: target) with ((c :: r) ++ slash :: target). rewrite <- E. rewrite split_app, split_joinp by (auto using valid_names_noslash; discriminate).
+    reflexivity.
+Qed.
+
+(* ============================================================================================
+   C. findNode finds exactly the nodes of the tree *)
+
+Definition names (m : mdir) : list str :=
+  map d_name (m_dirs m) ++ map f_name (m_files m) ++ map l_name (m_links m).
+
+(* a REAPI Directory: entry names valid and unique across the three lists *)
+Definition wf_dir (m : mdir) : Prop := NoDup (names m) /\ Forall valid_name (names m).
+
+(* a REAPI Tree: the root is stored under its digest; every stored directory is well-formed and
+   every child digest it mentions is stored *)
+Definition wf_tree (t : tree) : Prop :=
+  lookup (t_rootdg t) (t_dirs t) = Some (t_root t)
+  /\ forall dg m, lookup dg (t_dirs t) = Some m ->
+       wf_dir m /\ forall d, In d (m_dirs m) -> exists m', lookup (d_dg d) (t_dirs t) = Some m'.
+
+(* The node of the tree at a path (a list of names) below directory m. *)
+Inductive node_at (t : tree) : mdir -> list str -> found -> Prop :=
+| NA_file m f : In f (m_files m) -> node_at t m [f_name f] (FFile f)
+| NA_link m l : In l (m_links m) -> node_at t m [l_name l] (FLink l)
+| NA_dir m d : In d (m_dirs m) -> node_at t m [d_name d] (FDir d)
+| NA_step m d m' segs e : In d (m_dirs m) -> lookup (d_dg d) (t_dirs t) = Some m' ->
+    node_at t m' segs e -> node_at t m (d_name d :: segs) e.
+
+Lemma find_unique {A} (nm : A -> str) l x :
+  In x l -> NoDup (map nm l) -> find (fun y => str_eqb (nm y) (nm x)) l = Some x.
+Proof.
+  induction l as [|y l IH]; intros Hin Hnd; [contradiction|].
+  cbn [find]. inversion Hnd as [|? ? Hny Hnd']; subst. destruct Hin as [->|Hin].
+  - rewrite str_eqb_refl. reflexivity.
+  - destruct (str_eqb (nm y) (nm x)) eqn:E.
+    + apply str_eqb_eq in E. exfalso. apply Hny. rewrite E. apply in_map. exact Hin.
+    + apply IH; assumption.
+Qed.
+
+Lemma find_absent {A} (nm : A -> str) l name :
+  ~ In name (map nm l) -> find (fun y => str_eqb (nm y) name) l = None.
+Proof.
+  induction l as [|y l IH]; intros H; [reflexivity|]. cbn [find].
+  destruct (str_eqb (nm y) name) eqn:E.
+  - apply str_eqb_eq in E. exfalso. apply H. left. exact E.
+  - apply IH. intros Hin. apply H. right. exact Hin.
+Qed.
+
+Lemma find_name {A} (nm : A -> str) l name x :
+  find (fun y => str_eqb (nm y) name) l = Some x -> In x l /\ nm x = name.
+Proof. intros H. apply find_some in H. destruct H as (Hin & E). apply str_eqb_eq in E. auto. Qed.
+
+Lemma NoDup_app_l {A} (a b : list A) : NoDup (a ++ b) -> NoDup a.
+Proof. induction a as [|x a IH]; intros H; [constructor|]. inversion H; subst. constructor; [rewrite in_app_iff in *; tauto|auto]. Qed.
+Lemma NoDup_app_r {A} (a b : list A) : NoDup (a ++ b) -> NoDup b.
+Proof. induction a as [|x a IH]; intros H; [exact H|]. inversion H; subst. auto. Qed.
+Lemma NoDup_app_disj {A} (a b : list A) x : NoDup (a ++ b) -> In x a -> ~ In x b.
+Proof.
+  induction a as [|y a IH]; intros H Hin; [contradiction|]. inversion H as [|? ? Hn Hnd]; subst.
+  destruct Hin as [->|Hin]; [rewrite in_app_iff in Hn; tauto|auto].
+Qed.
+
+Section Find.
+  Variable t : tree.
+  Hypothesis Hwf : wf_tree t.
+
+  Lemma wf_stored dg m : lookup dg (t_dirs t) = Some m -> wf_dir m.
+  Proof. intros H. apply (proj2 Hwf) in H. tauto. Qed.
+
+  Lemma wf_child dg m d : lookup dg (t_dirs t) = Some m -> In d (m_dirs m) ->
+    exists m', lookup (d_dg d) (t_dirs t) = Some m'.
+  Proof. intros H. apply (proj2 Hwf) in H. destruct H as (_ & H). apply H. Qed.
+
+  (* what decide does on the entries of a well-formed directory *)
+  Lemma decide_dir wdg m d re htd : wf_dir m -> In d (m_dirs m) ->
+    decide t wdg (Some m) (d_name d) re htd =
+      if re then ARet (Ok (FDir d)) else ADescend (d_dg d) (lookup (d_dg d) (t_dirs t)).
+  Proof.
+    intros (Hnd & Hval) Hin. unfold decide.
+    assert (Hv : valid_name (d_name d)).
+    { rewrite Forall_forall in Hval. apply Hval. unfold names. rewrite in_app_iff. left. apply in_map. exact Hin. }
+    destruct Hv as (_ & _ & Hd & Hdd). apply str_eqb_neq in Hd, Hdd. rewrite Hd, Hdd.
+    unfold find_dir. rewrite find_unique; [reflexivity|exact Hin|]. apply NoDup_app_l in Hnd. exact Hnd.
+  Qed.
+
+  Lemma decide_file wdg m f : wf_dir m -> In f (m_files m) ->
+    decide t wdg (Some m) (f_name f) true false = ARet (Ok (FFile f)).
+  Proof.
+    intros (Hnd & Hval) Hin. unfold decide.
+    assert (Hinn : In (f_name f) (map f_name (m_files m))) by (apply in_map; exact Hin).
+    assert (Hv : valid_name (f_name f)).
+    { rewrite Forall_forall in Hval. apply Hval. unfold names. rewrite !in_app_iff. auto. }
+    destruct Hv as (_ & _ & Hd & Hdd). apply str_eqb_neq in Hd, Hdd. rewrite Hd, Hdd.
+    unfold find_dir, find_file. rewrite find_absent.
+    - rewrite find_unique; [reflexivity|exact Hin|]. apply NoDup_app_r, NoDup_app_l in Hnd. exact Hnd.
+    - intros Hc. eapply NoDup_app_disj; [exact Hnd|exact Hc|]. rewrite in_app_iff. auto.
+  Qed.
+
+  Lemma decide_link wdg m l : wf_dir m -> In l (m_links m) ->
+    decide t wdg (Some m) (l_name l) true false = ARet (Ok (FLink l)).
+  Proof.
+    intros (Hnd & Hval) Hin. unfold decide.
+    assert (Hinn : In (l_name l) (map l_name (m_links m))) by (apply in_map; exact Hin).
+    assert (Hv : valid_name (l_name l)).
+    { rewrite Forall_forall in Hval. apply Hval. unfold names. rewrite !in_app_iff. auto. }
+    destruct Hv as (_ & _ & Hd & Hdd). apply str_eqb_neq in Hd, Hdd. rewrite Hd, Hdd.
+    unfold find_dir, find_file, find_link. rewrite find_absent.
+    - rewrite find_absent.
+      + rewrite find_unique; [reflexivity|exact Hin|]. apply NoDup_app_r, NoDup_app_r in Hnd. exact Hnd.
+      + intros Hc. apply NoDup_app_r in Hnd. eapply NoDup_app_disj; [exact Hnd|exact Hc|exact Hinn].
+    - intros Hc. eapply NoDup_app_disj; [exact Hnd|exact Hc|]. rewrite in_app_iff. auto.
+  Qed.
+
+  (* the bytes of one element are collected up to the next '/' *)
+  Lemma walk_name wdg wd x : noslash x -> forall acc p,
+    walk t wdg wd acc (x ++ p) = walk t wdg wd (rev x ++ acc) p.
+  Proof.
+    unfold noslash. induction x as [|c x IH]; intros H acc p; [reflexivity|].
+    cbn [app walk rev]. destruct (N.eqb_spec c slash) as [E|E]; [exfalso; apply H; left; auto|].
+    rewrite IH by (intros Hin; apply H; right; exact Hin). rewrite <- app_assoc. reflexivity.
+  Qed.
+
+  Lemma walk_last wdg wd x : noslash x ->
+    walk t wdg wd [] x = match decide t wdg wd x true false with ARet r => r | _ => Err EOther end.
+  Proof.
+    intros H. rewrite <- (app_nil_r x) at 1. rewrite walk_name by exact H.
+    cbn [walk]. rewrite app_nil_r, rev_involutive. reflexivity.
+  Qed.
+
+  Lemma walk_elem wdg wd x p : noslash x ->
+    walk t wdg wd [] (x ++ slash :: p) =
+      match decide t wdg wd x (match p with [] => true | _ => false end) true with
+      | ARet r => r
+      | ADescend dg m => walk t dg m [] p
+      | AStay => walk t wdg wd [] p
+      end.
+  Proof.
+    intros H. rewrite walk_name by exact H. cbn [walk]. rewrite N.eqb_refl, app_nil_r, rev_involutive.
+    reflexivity.
+  Qed.
+
+  Lemma node_at_valid m segs e : forall dg, lookup dg (t_dirs t) = Some m -> node_at t m segs e ->
+    Forall valid_name segs /\ segs <> [].
+  Proof.
+    intros dg Hm Hn. revert dg Hm. induction Hn; intros dg Hm;
+      pose proof (wf_stored _ _ Hm) as (_ & Hval); rewrite Forall_forall in Hval.
+    - split; [|discriminate]. constructor; [|constructor]. apply Hval. unfold names. rewrite !in_app_iff. auto using in_map.
+    - split; [|discriminate]. constructor; [|constructor]. apply Hval. unfold names. rewrite !in_app_iff. auto using in_map.
+    - split; [|discriminate]. constructor; [|constructor]. apply Hval. unfold names. rewrite !in_app_iff. auto using in_map.
+    - split; [|discriminate]. constructor.
+      + apply Hval. unfold names. rewrite !in_app_iff. auto using in_map.
+      + eapply IHHn. eassumption.
+  Qed.
+
+  Lemma joinp_valid_nonnil segs : Forall valid_name segs -> segs <> [] -> joinp segs <> [].
+  Proof.
+    intros H Hne E. destruct (joinp_head_not_slash segs H Hne) as (c & r & E' & _). congruence.
+  Qed.
+
+  (* completeness: every node of the tree is found under its path *)
+  Lemma find_complete m segs e : forall dg, lookup dg (t_dirs t) = Some m -> node_at t m segs e ->
+    walk t dg (Some m) [] (joinp segs) = Ok e.
+  Proof.
+    intros dg Hm Hn. revert dg Hm. induction Hn; intros dg Hm; pose proof (wf_stored _ _ Hm) as Hwd.
+    - cbn [joinp]. rewrite walk_last, decide_file; auto.
+      destruct Hwd as (_ & Hval). rewrite Forall_forall in Hval.
+      apply Hval. unfold names. rewrite !in_app_iff. auto using in_map.
+    - cbn [joinp]. rewrite walk_last, decide_link; auto.
+      destruct Hwd as (_ & Hval). rewrite Forall_forall in Hval.
+      apply Hval. unfold names. rewrite !in_app_iff. auto using in_map.
+    - cbn [joinp]. rewrite walk_last, decide_dir; auto.
+      destruct Hwd as (_ & Hval). rewrite Forall_forall in Hval.
+      apply Hval. unfold names. rewrite !in_app_iff. auto using in_map.
+    - destruct (node_at_valid _ _ _ _ H0 Hn) as (Hv & Hne).
+      rewrite joinp_cons by exact Hne. rewrite walk_elem.
+      + rewrite decide_dir by assumption.
+        pose proof (joinp_valid_nonnil segs Hv Hne) as Hj. destruct (joinp segs) eqn:Ej; [congruence|].
+        rewrite H0. eapply IHHn. exact H0.
+      + destruct Hwd as (_ & Hval). rewrite Forall_forall in Hval.
+        apply Hval. unfold names. rewrite !in_app_iff. auto using in_map.
+  Qed.
+
+  (* soundness: whatever is found under a valid path is the tree's node there; otherwise
+     ErrNotExist; never a panic *)
+  Lemma find_sound segs : Forall valid_name segs -> segs <> [] ->
+    forall dg m, lookup dg (t_dirs t) = Some m ->
+    (exists e, walk t dg (Some m) [] (joinp segs) = Ok e /\ node_at t m segs e)
+    \/ (walk t dg (Some m) [] (joinp segs) = Err ENotExist /\ forall e, ~ node_at t m segs e).
+  Proof.
+    induction segs as [|x segs IH]; [congruence|]. intros Hall _ dg m Hm.
+    inversion Hall as [|? ? Hx Hr]; subst.
+    pose proof Hx as (Hx0 & Hx1 & Hx2 & Hx3). apply str_eqb_neq in Hx2, Hx3.
+    pose proof (wf_stored _ _ Hm) as Hwd. pose proof Hwd as (Hnd & Hval).
+    destruct segs as [|y segs].
+    - cbn [joinp]. rewrite walk_last by exact Hx1. unfold decide. rewrite Hx2, Hx3.
+      destruct (find_dir x (m_dirs m)) as [d|] eqn:Ed.
+      { apply find_name in Ed. destruct Ed as (Hin & <-). left. eexists. split; [reflexivity|]. constructor. exact Hin. }
+      destruct (find_file x (m_files m)) as [f|] eqn:Ef.
+      { apply find_name in Ef. destruct Ef as (Hin & <-). left. eexists. split; [reflexivity|]. constructor. exact Hin. }
+      destruct (find_link x (m_links m)) as [l|] eqn:El.
+      { apply find_name in El. destruct El as (Hin & <-). left. eexists. split; [reflexivity|]. constructor. exact Hin. }
+      right. split; [reflexivity|]. intros e Hn. inversion Hn; subst.
+      + unfold find_file in Ef. rewrite find_unique in Ef; [discriminate|assumption|].
+        apply NoDup_app_r, NoDup_app_l in Hnd. exact Hnd.
+      + unfold find_link in El. rewrite find_unique in El; [discriminate|assumption|].
+        apply NoDup_app_r, NoDup_app_r in Hnd. exact Hnd.
+      + unfold find_dir in Ed. rewrite find_unique in Ed; [discriminate|assumption|].
+        apply NoDup_app_l in Hnd. exact Hnd.
+      + match goal with H : node_at _ _ [] _ |- _ => inversion H end.
+    - rewrite joinp_cons by discriminate. rewrite walk_elem by exact Hx1.
+      pose proof (joinp_valid_nonnil (y :: segs) Hr ltac:(discriminate)) as Hj.
+      destruct (joinp (y :: segs)) as [|c0 r0] eqn:Ej; [congruence|]. rewrite <- Ej.
+      unfold decide. rewrite Hx2, Hx3.
+      destruct (find_dir x (m_dirs m)) as [d|] eqn:Ed.
+      + apply find_name in Ed. destruct Ed as (Hin & <-).
+        destruct (wf_child _ _ _ Hm Hin) as (m' & Hm'). rewrite Hm'.
+        destruct (IH Hr ltac:(discriminate) _ _ Hm') as [(e & Hw & Hn)|(Hw & Hno)].
+        * left. exists e. split; [exact Hw|]. econstructor; eassumption.
+        * right. split; [exact Hw|]. intros e Hn. inversion Hn; subst.
+          assert (d0 = d).
+          { apply NoDup_app_l in Hnd.
+            pose proof (find_unique d_name (m_dirs m) d Hin Hnd) as F1.
+            pose proof (find_unique d_name (m_dirs m) d0 ltac:(assumption) Hnd) as F2.
+            match goal with H : d_name d0 = d_name d |- _ => rewrite H in F2 end. congruence. }
+          subst d0. match goal with H : lookup (d_dg d) _ = Some ?mm |- _ => rewrite Hm' in H; inversion H; subst end.
+          eapply Hno. eassumption.
+      + right. split; [reflexivity|]. intros e Hn. inversion Hn; subst.
+        unfold find_dir in Ed. rewrite find_unique in Ed; [discriminate|assumption|].
+        apply NoDup_app_l in Hnd. exact Hnd.
+  Qed.
+End Find.
